@@ -98,7 +98,8 @@ type c02Out struct {
 }
 
 // constJSON turns a constant into ["n",5] | ["name","/a"] | ["s","txt"] |
-// ["b","bytes"] | ["pair",a,b] | ["list",[..]] | ["f",m,e] | ["other",printed].
+// ["b","bytes"] | ["pair",a,b] | ["list",[..]] | ["f",m,e] | ["map",[[k,v],..]] |
+// ["struct",[[k,v],..]] | ["other",printed].
 func constJSON(c ast.Constant) any {
 	switch c.Type {
 	case ast.NumberType:
@@ -125,6 +126,14 @@ func constJSON(c ast.Constant) any {
 			return nil
 		}, func() error { return nil })
 		return []any{"map", entries}
+	case ast.StructShape:
+		// ["struct", [[label, value], ...]] in the constant's own entry order
+		entries := []any{}
+		c.StructValues(func(k, v ast.Constant) error {
+			entries = append(entries, []any{constJSON(k), constJSON(v)})
+			return nil
+		}, func() error { return nil })
+		return []any{"struct", entries}
 	case ast.ListShape:
 		elems := []any{}
 		c.ListValues(func(e ast.Constant) error {
